@@ -205,7 +205,7 @@ class C16(Prop):
                     if r_[off:] != want:
                         fails.append((None, 'single-line highlight %s..%s (%s): mark row %r, expected %r' % (a, b, ty, r_[off:], want)))
                 else:
-                    rk = sepcol + 2 + multi.index((ty, mid, a, b))
+                    rk = sepcol + 2 + sum(1 for h2 in hls[:hi] if h2[2][1] != h2[3][1])   # riser column: by position (two highlights may be equal)
                     er = order[row_of[(hi, 'end')]][2]
                     if not er.endswith(' m%d' % mid):
                         fails.append((None, 'multi-line highlight %s..%s: end mark row %r lacks its message' % (a, b, er)))
